@@ -72,12 +72,11 @@ DEVIATIONS = [
      "class-level qualifiers are resolved with propagate=False: ToSubclass "
      "qualifiers of the superclass are not inherited, DisableOverride is not "
      "enforced"),
-    ("ClassModelImplSigAsIs.cfg", "ClassModelImplSigFixed.cfg",
-     "an overriding method whose parameter list differs from the overridden "
-     "one ends in AttributeError (neither accepted nor refused by a CIM "
-     "error)"),
 ]
 REGRESSIONS = [
+    ("ClassModelImplSigAsIs.cfg", "ImplRefinesReq",
+     "legacy (before the fix: commit): an overriding method whose parameter "
+     "list differs from the overridden one ends in AttributeError"),
     ("ClassModelImplRegOrigin.cfg", "GetFullOk",
      "class_origin of an overriding element taken from the direct superclass"),
     ("ClassModelImplRegModify.cfg", "GetFullOk",
@@ -91,6 +90,8 @@ REGRESSIONS = [
      "attributes None and stops flowing / being enforced below"),
 ]
 PASS_QUICK += [
+    ("ClassModelImplSigFixed.cfg", "Impl => Req: overriding methods with a "
+     "different parameter list are refused with a CIM error"),
     ("ClassModelImplMethQFixed.cfg", "Impl => Req: method/parameter "
      "qualifiers (parameters of overriding methods resolved)"),
     ("ClassModelImplPropQFixed.cfg", "Impl => Req: restated qualifiers "
